@@ -77,8 +77,10 @@ Affs(V) == {a \in [cx : [V -> 0..MaxCoef], c : 0..MaxC] :
 Projs(V) == UNION {[1..k -> Affs(V)] : k \in 1..MaxRanks}
 OutAll(V) == [i \in 1..Cardinality(V) |-> Pure(AllVars[i])]
 
-ExhInit == /\ \E bnd \in [Vars -> 1..MaxB], pr \in Projs(Vars), st \in {0, 1} :
-                W = [bnd |-> bnd, style |-> st,
+\* (how the box is declared to the implementation -- style 0/1 -- alternates with the case)
+ExhInit == /\ \E bnd \in [Vars -> 1..MaxB], pr \in Projs(Vars) :
+                W = [bnd |-> bnd,
+                     style |-> (SumOver(Vars, bnd) + Len(pr) + SumOver(1..Len(pr), [i \in 1..Len(pr) |-> pr[i].c])) % 2,
                      eins |-> << << [t |-> "T", proj |-> pr],
                                     [t |-> "O", proj |-> OutAll(Vars)] >> >>]
            /\ rv = <<>>
